@@ -90,7 +90,12 @@ func (a *IBCAdapter) ParsePacket(
 		return nil, core.ErrNoOrbiterPacket.Wrap("data is not ICS20 packet")
 	}
 
-	if packet.GetReceiver() != core.ModuleAddress.String() {
+	// NOTE: the receiver is compared after decoding, as the ICS20 application decodes it to
+	// credit the funds. Bech32 has more than one valid encoding of the same address (e.g. all
+	// upper case), and a string comparison would let those bypass the orbiter flow while the
+	// funds are still credited to the module account.
+	receiver, err := sdk.AccAddressFromBech32(packet.GetReceiver())
+	if err != nil || !receiver.Equals(core.ModuleAddress) {
 		return nil, core.ErrNoOrbiterPacket.Wrap("receiver is not Orbiter module")
 	}
 
